@@ -29,6 +29,7 @@ type verifLineReader struct {
 	err         error // read error delivered after the last line (nil: clean EOF)
 	gzHeaderErr error // error of gzip.NewReader (only for .gz input)
 	frag        string // unterminated data read before err strikes (a fault in the middle of a line)
+	gzFirst     int    // .gz input written as two gzip members, the first holding this many lines (0: one member)
 	// native representation
 	crlf, noFinalNL, gz bool
 	buf                 *bytes.Reader
@@ -59,9 +60,23 @@ func (r *verifLineReader) Read(p []byte) (int, error) {
 		content := sb.Bytes()
 		if r.gz {
 			var zb bytes.Buffer
-			zw := gzip.NewWriter(&zb)
-			zw.Write(content)
-			zw.Close()
+			if r.gzFirst > 0 && r.gzFirst < len(r.lines) && r.tooLongAt < 0 && r.err == nil {
+				// multi-member gzip file (gzip -c part >> log.gz): cut after the first gzFirst lines
+				cut := 0
+				for i := 0; i < r.gzFirst; i++ {
+					cut += len(r.lines[i]) + len(term)
+				}
+				zw := gzip.NewWriter(&zb)
+				zw.Write(content[:cut])
+				zw.Close()
+				zw = gzip.NewWriter(&zb)
+				zw.Write(content[cut:])
+				zw.Close()
+			} else {
+				zw := gzip.NewWriter(&zb)
+				zw.Write(content)
+				zw.Close()
+			}
 			content = zb.Bytes()
 			if r.gzHeaderErr != nil {
 				content = []byte("this is not a gzip stream")
@@ -224,7 +239,9 @@ func H_c06() {
 	verifAssert(err2 == nil, "file-ok")
 	verifSameWrites(w2.writes, want, "file")
 	w3 := &verifWriter{}
-	err3 := ProcessMongoLogFile(&verifFileReader{rd: &verifLineReader{lines: lines, tooLongAt: -1, gz: true}, ext: ".gz"}, "in.log.gz", w3, bar)
+	// (a .gz log may consist of several gzip members - rotated parts appended with gzip -c >> - and
+	// its content is the concatenation of all of them)
+	err3 := ProcessMongoLogFile(&verifFileReader{rd: &verifLineReader{lines: lines, tooLongAt: -1, gz: true, gzFirst: 1}, ext: ".gz"}, "in.log.gz", w3, bar)
 	verifAssert(err3 == nil, "gzip-ok")
 	verifSameWrites(w3.writes, want, "gzip")
 	w4 := &verifWriter{}
